@@ -4,6 +4,7 @@ import (
 	"fmt"
 	"math/big"
 	"strings"
+	"sync/atomic"
 )
 
 // Sort of an SMT term.
@@ -47,12 +48,13 @@ type Term struct {
 	BlkOf *Term
 }
 
-var narr int
+var narr int64
+
+func nextArr() int64 { return atomic.AddInt64(&narr, 1) }
 
 // MkArr builds a derived array whose element at idx is fn(idx).
 func MkArr(fn func(idx *Term) *Term) *Term {
-	narr++
-	return &Term{S: fmt.Sprintf("<arr#%d>", narr), Sort: SArr, Fn: fn}
+	return &Term{S: fmt.Sprintf("<arr#%d>", nextArr()), Sort: SArr, Fn: fn}
 }
 
 // ConstArr: every element equals v.
